@@ -16,9 +16,9 @@ import time
 VERIF = os.path.dirname(os.path.dirname(os.path.abspath(__file__)))
 DEFAULT_SEED = 20260925
 TIERS = {
-    # runs, determinism-selftest runs (per fresh interpreter), chunk
-    "quick": {"runs": 9000, "det": 96, "chunk": 50, "shrink_evals": 500},
-    "thorough": {"runs": 300000, "det": 1920, "chunk": 250, "shrink_evals": 1500},
+    # runs per property, determinism-selftest runs (per fresh interpreter), chunk
+    "quick": {"runs": {"C07": 20000, "C08": 9000}, "det": 160, "chunk": 50, "shrink_evals": 500},
+    "thorough": {"runs": {"C07": 600000, "C08": 300000}, "det": 3200, "chunk": 250, "shrink_evals": 1500},
 }
 CHUNK_TIMEOUT = 900
 
@@ -194,7 +194,7 @@ def main(argv=None):
     if tier not in TIERS:
         tier = "quick"
     cfg = TIERS[tier]
-    nruns = a.runs or cfg["runs"]
+    nruns = a.runs or cfg["runs"][a.prop]
     nproc = a.workers or min(16, os.cpu_count() or 1)
     prop = a.prop
     t0 = time.time()
